@@ -18,8 +18,8 @@ The tree is $GLUE_REPO (default /repo).  Everything emitted is *read off the imp
                              (`__module__ + '.' + __name__`), with flags
                              concrete (not inspect.isabstract) and written (defines/inherits
                              __gluestate__ or has a class with a registered saver in its MRO)
-  importable               : for every patch *target* inside `glue.`, whether
-                             glue.utils.lookup_class finds it un-patched
+  importable               : for every name of the patch table (key or target) inside `glue.`,
+                             whether glue.utils.lookup_class finds it un-patched
 """
 from __future__ import annotations
 
@@ -99,7 +99,9 @@ def live_classes():
 
 def importability(items):
     from glue.utils import lookup_class
-    targets = sorted({v for _, v in items if v.startswith("glue.")})
+    # keys as well as targets: the fallback of `fix: patch fallback to live class` asks whether the
+    # *original* name can still be imported
+    targets = sorted({n for kv in items for n in kv if n.startswith("glue.")})
     res = []
     for t in targets:
         try:
@@ -216,7 +218,7 @@ def render(t) -> str:
     L.append("def liveClasses : List (Nat × Bool × Bool) := %s" % rows(
         ("(%d, %s, %s)" % (ident[k], lbool(c), lbool(w)), k) for k, c, w in t["classes"]))
     L.append("")
-    L.append("/-- patch targets inside `glue.`: does `lookup_class` find them (un-patched)? -/")
+    L.append("/-- names of the patch table (keys and targets) inside `glue.`: does `lookup_class` find them (un-patched)? -/")
     L.append("def importable : List (Nat × Bool) := %s" % rows(
         ("(%d, %s)" % (ident[k], lbool(b)), k) for k, b in t["importable"]))
     L.append("")
